@@ -567,3 +567,7 @@ def concrete(line):
     f[0] = ",".join([hx(exe.encode()), hx(d.encode()), hx(new_id().encode())])
     toks[5] = "/".join(f)
     return " ".join(toks)
+
+
+import verbosity  # noqa: E402
+run_case = verbosity.wrap(run_case)   # one case in eight runs at Verbosity.CHANNEL
